@@ -4,7 +4,7 @@
 #   tools/gofootprint_selftest.sh            seeded changes through ./check <property>, harmless edits through the static part only
 #   FULL=1 tools/gofootprint_selftest.sh     everything through ./check
 #   STATIC=1 tools/gofootprint_selftest.sh   everything through the static part only (seconds each)
-#   PART=c19 | PART=c18                      only one of the two parts (default: both)
+#   PART=c19 | PART=c18 | PART=rename        only one of the parts (default: all)
 # It edits the library worktree $VERIF_REPO (default /repo) and restores it with `git checkout -- .` after every step:
 # run it against a scratch worktree.  Results: build/selftest/footprint.txt (one line per edit and property, then the
 # differences in words) and build/selftest/<name>-<property>.log.
@@ -141,6 +141,14 @@ if [ "$part" = all ] || [ "$part" = c18 ]; then
   done
   for h in H01 H08 H09 H12 H14; do
     git -C "$repo" apply "$here/seeded/benign/$h/patch.diff" && run_one "benign-$h" quiet $mode_harmless AliasStatic.v C18
+  done
+fi
+
+if [ "$part" = all ] || [ "$part" = rename ]; then
+  echo "== renamings / reorderings / additions that must change no obligation (canonical identifiers)" | tee -a "$out/footprint.txt"
+  for h in H04 H05 H06 H12 H13; do
+    git -C "$repo" apply "$here/seeded/benign/$h/patch.diff" && run_one "benign-$h" quiet $mode_harmless AliasStatic.v C17 C18
+    git -C "$repo" apply "$here/seeded/benign/$h/patch.diff" && run_one "benign-$h" quiet $mode_harmless IndepStatic.v C19
   done
 fi
 
